@@ -403,14 +403,14 @@ class InstanceGen:
     """Enumerates the documents of a DTD through a chooser: each occurrence count, choice branch, optional attribute
     and value is a choice point; the default answers give the minimal document."""
 
-    MAX_DEPTH = 3
+    MAX_DEPTH = 2
 
     def __init__(self, d: Dtd, ch: Chooser, free: bool = False):
         self.d = d
         self.ch = ch
         self.free = free
         self.n = 0
-        self.depth = 0
+        self.stack: list = []
         self.ids: list = []
 
     def pick(self, seq, label):
@@ -475,7 +475,7 @@ class InstanceGen:
         el = I.El(self.d.qn(name))
         el.attrs += self.attrs_of(e)
         c = e.content
-        self.depth += 1
+        self.stack.append(name)
         try:
             if c == EMPTY:
                 pass
@@ -484,13 +484,19 @@ class InstanceGen:
                 if t:
                     el.kids.append(t)
             elif c == ANY:
-                kind = self.pick(["empty", "text", "element", "mixed"], f"any:{name}")
+                kind = self.pick(["empty", "text", "element", "two-elements", "lead-text", "tail-text", "mixed"], f"any:{name}")
                 if kind == "text":
                     el.kids.append("any text")
                 elif kind == "element":
                     el.kids.append(self.element("a"))
+                elif kind == "two-elements":
+                    el.kids += [self.element("b"), self.element("a")]
+                elif kind == "lead-text":
+                    el.kids += ["lead ", self.element("a")]
+                elif kind == "tail-text":
+                    el.kids += [self.element("a"), " trail"]
                 elif kind == "mixed":
-                    el.kids += ["lead ", self.element("b"), self.element("a"), " trail"]
+                    el.kids += ["lead ", self.element("b"), " & ", self.element("a"), " trail"]
             elif isinstance(c, Mixed):
                 if not c.names:
                     t = self.pick(TEXTS[::-1], f"text:{name}")
@@ -507,13 +513,14 @@ class InstanceGen:
             else:
                 el.kids += self.particle(c)
         finally:
-            self.depth -= 1
+            self.stack.pop()
         return el
 
     def particle(self, p) -> list:
         mn, mx = OCC[p.occ]
         if isinstance(p, Name):
-            if self.depth > self.MAX_DEPTH:
+            if self.stack.count(p.name) >= self.MAX_DEPTH:
+                # a recursive declaration is unrolled MAX_DEPTH times
                 if mn:
                     raise HarnessError(f"required recursion through {p.name}")
                 return []
